@@ -287,6 +287,70 @@ pub fn family(rng: &mut Rng, al: &[String]) -> Vec<String> {
     tcs
 }
 
+/// Medium-sized inputs (many test cases, long test cases, many distinct symbols, long repeats): the
+/// size range in which size-dependent behaviour (limits, heuristics, "optimisations") would show.
+pub fn medium_family(rng: &mut Rng, al: &[String]) -> Vec<String> {
+    let word = |rng: &mut Rng, lo: usize, span: usize| -> String {
+        let n = lo + rng.below(span.max(1));
+        (0..n).map(|_| rng.pick(al).clone()).collect()
+    };
+    match rng.below(6) {
+        // many short test cases over a small alphabet: dense trie, heavy merging
+        0 => {
+            let k = 15 + rng.below(45);
+            let small: Vec<String> = (0..2 + rng.below(3)).map(|_| rng.pick(al).clone()).collect();
+            (0..k).map(|_| (0..1 + rng.below(6)).map(|_| rng.pick(&small).clone()).collect()).collect()
+        }
+        // a few long test cases sharing a long prefix / suffix / infix
+        1 => {
+            let shared = word(rng, 20, 40);
+            let mode = rng.below(3);
+            (0..2 + rng.below(4))
+                .map(|_| {
+                    let own = word(rng, 5, 30);
+                    match mode {
+                        0 => format!("{shared}{own}"),
+                        1 => format!("{own}{shared}"),
+                        _ => format!("{}{shared}{own}", word(rng, 3, 1)),
+                    }
+                })
+                .collect()
+        }
+        // many test cases over many distinct symbols
+        2 => {
+            let base = 0x3b1u32 + 0x100 * rng.below(4) as u32;
+            let sym: Vec<String> = (0..30 + rng.below(60)).filter_map(|k| char::from_u32(base + k as u32)).map(|c| c.to_string()).collect();
+            (0..20 + rng.below(30)).map(|_| (0..2 + rng.below(8)).map(|_| rng.pick(&sym).clone()).collect()).collect()
+        }
+        // long runs and long periodic parts
+        3 => {
+            let u = word(rng, 1, 3);
+            let v = word(rng, 1, 2);
+            (0..2 + rng.below(5)).map(|_| format!("{}{}{}", u.repeat(8 + rng.below(40)), v, u.repeat(rng.below(12)))).collect()
+        }
+        // a long prefix chain
+        4 => {
+            let w: Vec<String> = (0..20 + rng.below(40)).map(|_| rng.pick(al).clone()).collect();
+            (1..=w.len()).filter(|_| rng.chance(2, 3)).map(|i| w[..i].concat()).collect::<Vec<_>>()
+        }
+        // one specific difference deep inside long, otherwise equal test cases
+        _ => {
+            let w: Vec<String> = (0..30 + rng.below(50)).map(|_| rng.pick(al).clone()).collect();
+            (0..2 + rng.below(4))
+                .map(|_| {
+                    let mut x = w.clone();
+                    let i = rng.below(x.len());
+                    x[i] = rng.pick(al).clone();
+                    if rng.chance(1, 3) {
+                        x.truncate(i + 1 + rng.below(w.len() - i));
+                    }
+                    x.concat()
+                })
+                .collect()
+        }
+    }
+}
+
 /// Families rich in repeats: unary, periodic, nested periods sharing prefixes (for C05/C13).
 pub fn repeat_family(rng: &mut Rng, al: &[String]) -> Vec<String> {
     let n = 1 + rng.below(5);
